@@ -31,7 +31,7 @@ def draws(rng, n):
 def generate(rng, tier):
     cases = []
     maxlen = 3 if tier == "quick" else 5
-    alphabet = [("enter", 0), ("exit", 0), ("enc", 0, "xor", b"\x00" * 40), ("enter", 1), ("exit", 1),
+    alphabet = [("enter", 0), ("exit", 0), ("enc", 0, "xor", b"\x00" * 40), ("enter", 1), ("exitx", 1),
                 ("enc", 1, "xor", b"abc")]
     fixed_draws = [bytes([200 + i]) * 32 for i in range(8)]
     for init in INITIALS:
@@ -45,7 +45,7 @@ def generate(rng, tier):
         for swap in swaps:
             for second in (0, 1):
                 for cipher in ("enc", "dec"):
-                    ops = [("new",), ("new",), ("enter", 0), (cipher, 0, "xor", b"\x00" * 40), ("exit", 0), ("ext", swap, True),
+                    ops = [("new",), ("new",), ("enter", 0), (cipher, 0, "xor", b"\x00" * 40), ("exitx" if second else "exit", 0), ("ext", swap, True),
                            ("enter", second), (cipher, second, "xor", b"\x00" * 40), ("enter", second), (cipher, second, "xor", b"abc"),
                            ("exit", second), ("exit", second), (cipher, second, "xor", b"abc")]
                     cases.append({"file": init[0], "writable": init[1], "rng": fixed_draws[:4], "ops": ops, "kind": "swap"})
@@ -67,7 +67,7 @@ def generate(rng, tier):
             if r < 0.38:
                 ops.append(("enter", i))
             elif r < 0.62:
-                ops.append(("exit", i))
+                ops.append(("exit" if rng.random() < 0.7 else "exitx", i))
             elif r < 0.85:
                 m = rng.choice(METHODS)
                 data = bytes(rng.getrandbits(8) for _ in range(rng.choice([0, 1, 5, 32, 33, 70])))
@@ -91,8 +91,8 @@ def gcase(c):
             return "KNew"
         if op[0] == "enter":
             return "(KEnter %d%%nat)" % op[1]
-        if op[0] == "exit":
-            return "(KExit %d%%nat)" % op[1]
+        if op[0] in ("exit", "exitx"):
+            return "(KExit %d%%nat)" % op[1]          # leaving the context because of an exception is the same step
         if op[0] == "enc":
             return "(KEncrypt %d%%nat %s %s)" % (op[1], GM[op[2]], g_bytes(op[3]))
         if op[0] == "dec":
@@ -165,6 +165,9 @@ def impl(c):
                     objs[op[1]].__enter__()
                 elif op[0] == "exit":
                     objs[op[1]].__exit__(None, None, None)
+                elif op[0] == "exitx":
+                    err = ValueError("raised inside the with-block")
+                    objs[op[1]].__exit__(ValueError, err, None)
                 elif op[0] == "enc":
                     sv = objs[op[1]].encrypt(op[3], method=op[2])
                     out = ("xor", bytes(sv.ciphertext)) if sv.method == "xor" else sv.method
@@ -246,7 +249,7 @@ def oracle(c, obs):
             else:
                 if out == "ok":
                     depth[i] += 1
-        elif op[0] == "exit":
+        elif op[0] in ("exit", "exitx"):
             i = op[1]
             if depth[i] <= 0:
                 tainted = True
